@@ -102,7 +102,7 @@ struct Expander {
       }
     }
     if (eng->uses_buggify() && j != 0) {
-      c.set_knob("buggify_mask", k.chance(0.5) ? static_cast<int64_t>(k.below(128)) & ~1LL : 0);
+      c.set_knob("buggify_mask", k.chance(0.5) ? static_cast<int64_t>(k.below(256)) & ~1LL : 0);
       static const int64_t pcts[] = {5, 10, 30};
       c.set_knob("buggify_pct", pcts[k.below(3)]);
       c.set_knob("buggify_budget", k.range(1, 5));
@@ -136,6 +136,9 @@ J result_json(Engine* eng, const Case& c, const Result& r) {
   J fl = J::arr();
   for (auto& f : r.fired) { J fj = J::arr(); fj.push(f.thread).push(f.op).push(f.kind).push(f.k).push(f.site); fl.push(fj); }
   j.set("fired", fl);
+  J rp = J::arr();
+  for (int i = 0; i < 10; i++) rp.push(run_probe_count(i));
+  j.set("run_probes", rp);
   return j;
 }
 
